@@ -962,6 +962,11 @@ def rule_r12(ctx):
                     if par is f.node:
                         break
                     child, par = par, getattr(par, "_parent", None)
+                # a test may read a local that was bound to the question (`is_int = r.is_number and r.is_integer`)
+                for t in list(tests):
+                    for y in ast.walk(t):
+                        if isinstance(y, ast.Name):
+                            tests += [a.value for a in own_nodes(f.node) if isinstance(a, ast.Assign) and any(isinstance(t_, ast.Name) and t_.id == y.id for t_ in a.targets)]
                 asked = any(isinstance(y, ast.Attribute) and y.attr in ("is_integer", "is_Integer") for t in tests for y in ast.walk(t)) or any(
                     isinstance(y, ast.Call) and dotted_of(y.func) == "isinstance" and "Integer" in norm(y) for t in tests for y in ast.walk(t))
                 ctx.check("R12", f"{f.local}: `{norm(c)[:40]}` converts an expression that is known to be an integer", asked, f, c,
